@@ -318,3 +318,8 @@ def check(ctx: Ctx) -> None:
 
     check_handover_lock(ctx, locks, "C02.g")
     check_lock_order(ctx, locks, "C02.h")
+
+    # frame atomicity is a necessary condition of "no leakage into another channel" under concurrent senders
+    from .C08 import check_atomic_write, check_single_write
+    check_single_write(ctx, "C02.i")
+    check_atomic_write(ctx, "C02.j")
